@@ -75,7 +75,8 @@ def run(out, tier, rng, work):
     out.rule = ('2-4 real CAs on separate real stacks; NAME orderings random and near-equal; AAC on/off; preferred addresses equal/adjacent/'
                 'distinct/mixed in the immediate or veto range; start times and claim delays on a grid before/inside/after the 250 ms veto '
                 'windows; latencies {0,1us,5ms}; oracle at quiescence: settled, NORMAL addresses distinct, lowest NAME among the claimants '
-                'of each address holds it, losers behave; handler logs replayed on the Coq model; non-trivial = a contest happened')
+                'of each address holds it, losers behave; handler logs replayed on the Coq model; non-trivial = a contest happened'
+                ' A quarter of the scenarios on FD stacks; address 0 in 10 %.')
     out.assumptions = ['A1-A6 of DESIGN.md section 3', 'settle-time bound (T04.6) not proved; checked by the oracle at horizon = last claim + 4 s']
     sprop.run_stateful(out, 'C04', tier, rng, work, FILES, lambda r, k: gen_ca.gen_claim(r), oracle, 150, 3000, nontrivial,
                        sample=lambda sc, res: dict(cas=[(hex(s['cas'][0]['name']), s['cas'][0]['addr']) for s in sc['stacks']],
